@@ -952,6 +952,63 @@ func main() {
 	b.WriteString("def sarifEntryKeysRead : List String := " + leanStrList(indexKeys(findFunc(ci, "generateSarifReport"), "findingMap")) + "\n")
 	b.WriteString("def sarifRuleKeysRead : List String := " + leanStrList(indexKeys(findFunc(ci, "generateSarifReport"), "result")) + "\n")
 	b.WriteString("def ruleJsonTags : List String := " + leanStrList(structTags(ci, "Rule")) + "\n")
+	// Env methods that assign through env.Node (a query must not modify the graph)
+	var mutating []string
+	for _, d := range query.Decls {
+		fd, ok := d.(*ast.FuncDecl)
+		if !ok || fd.Recv == nil || len(fd.Recv.List) != 1 || src(fd.Recv.List[0].Type) != "*Env" {
+			continue
+		}
+		ast.Inspect(fd.Body, func(n ast.Node) bool {
+			switch st := n.(type) {
+			case *ast.AssignStmt:
+				for _, l := range st.Lhs {
+					if strings.HasPrefix(src(l), "env.Node") {
+						mutating = append(mutating, fd.Name.Name+": "+src(st))
+					}
+				}
+			case *ast.IncDecStmt:
+				if strings.HasPrefix(src(st.X), "env.Node") {
+					mutating = append(mutating, fd.Name.Name+": "+src(st))
+				}
+			}
+			return true
+		})
+	}
+	b.WriteString("def envMethodsMutatingNode : List String := " + leanStrList(mutating) + "\n")
+	// where the console creates its buffered reader: inside or outside the prompt loop
+	inLoop, outside := 0, 0
+	if fd := findFunc(cmdq, "executeCLIQuery"); fd != nil {
+		var loops []*ast.ForStmt
+		ast.Inspect(fd.Body, func(n ast.Node) bool {
+			if f, ok := n.(*ast.ForStmt); ok {
+				loops = append(loops, f)
+			}
+			return true
+		})
+		ast.Inspect(fd.Body, func(n ast.Node) bool {
+			c, ok := n.(*ast.CallExpr)
+			if !ok || callName(c) != "bufio.NewReader" {
+				return true
+			}
+			inside := false
+			for _, l := range loops {
+				if c.Pos() >= l.Body.Pos() && c.End() <= l.Body.End() {
+					inside = true
+				}
+			}
+			if inside {
+				inLoop++
+			} else {
+				outside++
+			}
+			return true
+		})
+	} else {
+		die("executeCLIQuery not found")
+	}
+	fmt.Fprintf(&b, "def consoleReadersCreatedInLoop : Nat := %d\n", inLoop)
+	fmt.Fprintf(&b, "def consoleReadersCreatedOutsideLoop : Nat := %d\n", outside)
 	b.WriteString("\nend Cpf.Generated\n")
 
 	if err := os.WriteFile(filepath.Join(out, "Tables.lean"), []byte(b.String()), 0o644); err != nil {
